@@ -84,4 +84,9 @@ SPECS = {
             "real": ["gob/CSV/JSON decoders, DecoderFor, NewHTTPTargeter, NewJSONTargeter"], "stub": ["storage (SimFile faults), reader (SimReader)"],
             "not_simulated": ["the bucket, rate, header, max-body, connect-to and resolver-address parsers take a string: no stream, fault or schedule applies; they are fed mutated values by the cmd engine's flag scenario (plain seeded generation)"],
             "assumptions": ["body-file references are rewritten into the sandbox directory after mutation (as the property prescribes)"]},
+    "C15": {"jobs": [{"engine": "attack", "scenario": "targeters-C15", "race": False, "quick": 30000, "thorough": 3000000},
+                     {"engine": "attack", "scenario": "targeters-C15", "race": True, "quick": 3000, "thorough": 200000}],
+            "rule": "one evaluation = 1..8 (1 in 20 runs: 9..64) caller goroutines drawing from one http, JSON or static targeter; the source reader parks inside Read (a caller is suspended while holding the targeter's lock, others become lock-waiters), 0..3 breakpoints are armed between the targeter's statements, the controller picks who runs next; the recorded history (invoke/return stamped with controller steps) is checked at quiescence; non-trivial = calls overlapped, a breakpoint was hit or a lock was contended; distinct = distinct event-log hashes",
+            "real": ["NewHTTPTargeter, NewJSONTargeter, NewStaticTargeter, peekingScanner, their mutexes and atomics"], "stub": ["source reader (parking), callers, scheduler (controller)"],
+            "assumptions": ATTACK_ASSUME + ["linearizability against a pop-only queue is decided directly (real-time order implies index order, exhaustion last) instead of with porcupine: for unique elements the two are equivalent"]},
 }
